@@ -344,8 +344,12 @@ class _Callee:
         self.static = decos == ['staticmethod']
         self.method = cls is not None and not self.static
         self.reason = None
+        # a generator wrapped by contextlib.contextmanager: written out where it is used in a `with` statement
+        self.ctxmgr = [d for d in decos if d != 'staticmethod'] in (['contextlib.contextmanager'], ['contextmanager'])
         a = node.args
-        if [d for d in decos if d != 'staticmethod']:
+        if self.ctxmgr:
+            self.reason = 'context manager'
+        elif [d for d in decos if d != 'staticmethod']:
             self.reason = 'decorated'
         elif isinstance(node, ast.AsyncFunctionDef):
             self.reason = 'async'
@@ -356,7 +360,7 @@ class _Callee:
         else:
             for n in _own_nodes(node):
                 if isinstance(n, (ast.Yield, ast.YieldFrom, ast.Await)):
-                    self.reason = 'generator'
+                    self.reason = self.reason or 'generator'
                 elif isinstance(n, (ast.Global, ast.Nonlocal)):
                     self.reason = 'global/nonlocal'
                 elif isinstance(n, (ast.AsyncFunctionDef, ast.ClassDef)):
@@ -666,6 +670,22 @@ class Inliner:
                 except CannotInline as e:
                     self.report.append(('left', callee.qual, getattr(self.g, 'name', '?'), str(e)))
                     st.iter._no_inline = True
+        if isinstance(st, ast.With) and len(st.items) == 1 and isinstance(st.items[0].context_expr, ast.Call) and \
+                not getattr(st.items[0].context_expr, '_no_inline', False):
+            nm = self.call_name(st.items[0].context_expr)
+            callee = self.callees.get(nm) if nm else None
+            if callee is not None and getattr(callee, 'ctxmgr', False):
+                try:
+                    new = self.inline_context_manager(st, callee, depth)
+                    self.counter += 1
+                    self.report.append(('inlined', callee.qual, getattr(self.g, 'name', '?'), 'context manager'))
+                    for new_st in new:
+                        for n_ in ast.walk(new_st):
+                            n_._inl = True
+                    return self.block(new, depth + 1)
+                except CannotInline as e:
+                    self.report.append(('left', callee.qual, getattr(self.g, 'name', '?'), str(e)))
+                    st.items[0].context_expr._no_inline = True
         pre = []
         for _ in range(8):
             call, cond = self.find_call(st)
@@ -909,6 +929,58 @@ class Inliner:
                         setattr(s_, fld, rec(blk))
                 for h in getattr(s_, 'handlers', []) or []:
                     h.body = rec(h.body)
+                out.append(s_)
+            return out
+        return self.fix(prelude + rec(body))
+
+    def inline_context_manager(self, st, callee, depth):
+        """`with helper(args) as T: BODY` with a @contextmanager generator that yields once, outside of any loop or try statement:
+        the helper's body with `yield E` replaced by `T = E; BODY` (the blocks around the yield are entered before BODY and left after
+        it, also when BODY raises -- as the generator based manager does)"""
+        wrap = ast.Module(body=callee.body, type_ignores=[])
+        ys = [n for n in _own_nodes(wrap) if isinstance(n, (ast.Yield, ast.YieldFrom))]
+        yst = [n for n in _own_nodes(wrap) if isinstance(n, ast.Expr) and isinstance(n.value, ast.Yield)]
+        if len(ys) != 1 or len(yst) != 1:
+            raise CannotInline('context manager that does not yield exactly once as a statement')
+        if any(isinstance(n, ast.Return) for n in _own_nodes(wrap)):
+            raise CannotInline('context manager with return')
+
+        def guarded(stmts):
+            # is the yield inside a loop / try of the helper?
+            for s_ in stmts:
+                if isinstance(s_, (ast.For, ast.While, ast.Try)) and any(x is yst[0] for x in ast.walk(s_)):
+                    return True
+                for fld in ('body', 'orelse'):
+                    blk = getattr(s_, fld, None)
+                    if isinstance(blk, list) and blk and isinstance(blk[0], ast.stmt) and not isinstance(s_, (ast.FunctionDef, ast.ClassDef)) and guarded(blk):
+                        return True
+            return False
+        if guarded(callee.body):
+            raise CannotInline('context manager that yields inside a loop or a try statement')
+        if _has_return(ast.Module(body=st.body, type_ignores=[])) and False:
+            pass
+        saved = callee.reason
+        callee.reason = None
+        try:
+            self._site = st
+            prelude, body = self.instantiate(callee, st.items[0].context_expr, depth, None)
+        finally:
+            callee.reason = saved
+        tgt = st.items[0].optional_vars
+
+        def rec(stmts):
+            out = []
+            for s_ in stmts:
+                if isinstance(s_, ast.Expr) and isinstance(s_.value, ast.Yield):
+                    if tgt is not None:
+                        val = s_.value.value if s_.value.value is not None else ast.Constant(value=None)
+                        out.append(ast.copy_location(ast.Assign(targets=[_copy_tree(tgt)], value=val, type_comment=None), st))
+                    out.extend(st.body)
+                    continue
+                for fld in ('body', 'orelse', 'finalbody'):
+                    blk = getattr(s_, fld, None)
+                    if isinstance(blk, list) and blk and isinstance(blk[0], ast.stmt) and not isinstance(s_, (ast.FunctionDef, ast.AsyncFunctionDef, ast.ClassDef)):
+                        setattr(s_, fld, rec(blk))
                 out.append(s_)
             return out
         return self.fix(prelude + rec(body))
